@@ -9,5 +9,6 @@ CONSTANTS
   MaxCloses = 1
   BugNoDrainer = TRUE
   BugCloseKeepsMap = FALSE
+  BugCntDecr = FALSE
 PROPERTIES ReaderProgress CancelFinishes ClosedEndsReceive
 CHECK_DEADLOCK FALSE
